@@ -38,6 +38,16 @@ def main():
             na.append({"property_id": pid, "reason": PENDING_REASON})
             continue
         mod = importlib.import_module("sa.props." + pid.lower())
+        rules_txt = ""
+        evp = os.path.join(HERE, "evidence", pid + ".json")
+        if os.path.exists(evp):
+            try:
+                ev = json.load(open(evp))
+                rl = ev.get("coverage", {}).get("rules", {})
+                rules_txt = " Rules decided in the last committed run (id: obligation): " + "; ".join(
+                    "%s: %s" % (rid, " ".join(str(r.get("what", "")).split())) for rid, r in sorted(rl.items())) + "."
+            except Exception:       # noqa
+                rules_txt = ""
         checks.append({
             "property_id": pid,
             "quick_cmd": "/venv/bin/python check.py %s --tier quick" % pid,
@@ -47,7 +57,7 @@ def main():
             "engine": "sa",
             "level_claimed": {
                 "category": "other",
-                "text": ("Static analysis of /repo's current source (nothing is executed): " + mod.EXPLANATION)[:6000],
+                "text": ("Static analysis of /repo's current source (nothing is executed): " + mod.EXPLANATION + rules_txt)[:8000],
                 "design_ref": "DESIGN.md section 4 (plan) and section 8 (as built), " + pid,
             },
             "level_note": ("Decides necessary structural/abstract-semantic conditions of the property, not the concrete "
